@@ -18,11 +18,13 @@ NSHARDS = 16
 
 def shard_args(tier, seed):
     u, k = BUDGET[tier]
-    return [{"universes": max(1, u // NSHARDS), "searches": k, "seed": seed * 1000 + i} for i in range(NSHARDS)]
+    return [{"universes": max(1, u // NSHARDS), "searches": k, "seed": seed * 1000 + i, "dataconf_variant": i % 4 == 2} for i in range(NSHARDS)]
 
 
 def envs(snap, shard_args_list):
-    return [snap.env(conf_dir=snap.conf_copy("w%d" % i)) for i in range(len(shard_args_list))]
+    # every fourth shard runs under a second data configuration (Finders / Getters created once per path configuration)
+    from lib import dataconf_variant
+    return dataconf_variant.envs(snap, shard_args_list)
 
 
 def floors(m, tier):
@@ -98,15 +100,15 @@ def judge_search(rec, lab, s, case):
             ex = lab.exists[name.split(":", 1)[1]]
             m = {e for e in ex if any(gmatch(f, e) and lab.model.natural(e).name == t for t, f in sforms)}
         else:
-            m = lab.allmodel.ans_all(s.replace(">", "*")) if False else None
             # R7 matches of the observed forms
+            am = lab.allmodel_of(name)
             m = set()
             ok = True
             for t, f in sforms:
-                F = lab.allmodel.finder_for(t, f)
+                F = am.finder_for(t, f)
                 if F is None:
                     continue
-                a = lab.allmodel.ans_finder(F, t, f)
+                a = am.ans_finder(F, t, f)
                 if a is None:
                     ok = False
                     break
